@@ -228,11 +228,17 @@ def r3(chk, prog):
                 mentions_var(args[-1], lv) and not mentions_var(args[-1], mod)
             chk.check(ok, 'R3', g.name, 'the member of the current iteration is handed to the modified handler',
                       g.loc(c))
+    r3_check_arg_mix(chk, prog)
+
+
+def r3_check_arg_mix(chk, prog, rule='R3'):
+    """ArgumentContainer::checkArgMix(): every key of one container is compared with every key of the other; equal
+    keys and mismatching short/long pairs both end in an exception; each comparison relates own x other"""
     # checkArgMix: nested loops over both containers, == and mismatch both lead to throw
     f = prog.one('celma::prog_args::detail::ArgumentContainer', 'checkArgMix')
     cfg = f.cfg
     loops = loops_in(f)
-    chk.check(len(loops) >= 2, 'R3', f.name, 'every key of one container is compared with every key of the other',
+    chk.check(len(loops) >= 2, rule, f.name, 'every key of one container is compared with every key of the other',
               f.loc())
     for what, test in (('equal keys', lambda c: c.get('k') == 'CXXOperatorCallExpr' and c.get('op') == '==' and
                         'ArgumentKey' in (c.get('callee') or '') or callee_is(c, 'operator==') and
@@ -251,7 +257,7 @@ def r3(chk, prog):
             hdrs = [loop_header(cfg, l) for l in loops]
             back = any((h, 0) in seen for h in hdrs if h is not None)
             found = found or (not rets and not back)
-        chk.check(found, 'R3', f.name, '%s in two handlers end in an exception' % what, f.loc())
+        chk.check(found, rule, f.name, '%s in two handlers end in an exception' % what, f.loc())
     # ... and each of the two comparisons relates a key of the own container with a key of the OTHER one (a key
     # compared with itself never mismatches)
     lvars = []
@@ -275,7 +281,7 @@ def r3(chk, prog):
         sides = [{kind_of[x['ref'].get('name')] for x in walk(o) if x.get('k') == 'DeclRefExpr' and
                   x['ref'].get('name') in kind_of} for o in ops if o is not None]
         n_cmp += 1
-        chk.check(len(sides) == 2 and sides[0] != sides[1] and all(len(s_) == 1 for s_ in sides), 'R3', f.name,
+        chk.check(len(sides) == 2 and sides[0] != sides[1] and all(len(s_) == 1 for s_ in sides), rule, f.name,
                   '%s relates a key of this container with a key of the other' % ('operator==' if is_eq else 'mismatch()'),
                   f.loc(c), 'operands refer to %s' % [sorted(s_) for s_ in sides])
     chk.require(n_cmp >= 2, 'checkArgMix: key comparisons found: %d' % n_cmp)
